@@ -1042,3 +1042,17 @@ Proof.
       destruct (lookup_ok (Some d) _ _ _ _ Hr L). apply trel_refl; assumption.
     + intros Hs. discriminate.
 Qed.
+
+(* the fuel offsets of the laws are bookkeeping: stated without them, the two sides have
+   the same proper results *)
+Theorem rw_local_name_results : forall fc fm r x e res, fvb x e = false -> snd res <> OutOfFuel ->
+  ((exists fe, run_in fe fc fm r (ELocal [(x, e)] (EVar x)) = res) <->
+   (exists fe, run_in fe fc fm r e = res)).
+Proof.
+  intros fc fm r x e res Hx Hres. split; intros [fe H].
+  - destruct fe as [|[|n]].
+    + subst res. exfalso. apply Hres. reflexivity.
+    + subst res. exfalso. apply Hres. reflexivity.
+    + exists n. rewrite <- H. symmetry. apply rw_local_name. exact Hx.
+  - exists (S (S fe)). rewrite <- H. apply rw_local_name. exact Hx.
+Qed.
